@@ -156,7 +156,7 @@ def _digest_arg(it):
     return c
 
 
-@contract("FileHashStore._get_hashstore_data_object_path", use_at_calls=False,
+@contract("FileHashStore._get_hashstore_data_object_path", assumes_clean_cwd=True, use_at_calls=False,
           cases={"digest": lambda it: [make_self(it), _digest_arg(it)]},
           pre=lambda it, self, cid_or_relative_path: [
               ("is-digest", T.ishex(str_of(it, cid_or_relative_path)))],
@@ -168,7 +168,7 @@ def _get_hashstore_data_object_path(it, self, cid_or_relative_path):
     return VPath(A_OBJECTS, (("shard", c),), pathobj=True)
 
 
-@contract("FileHashStore._exists", use_at_calls=False,
+@contract("FileHashStore._exists", assumes_clean_cwd=True, use_at_calls=False,
           cases={"objects": lambda it: [make_self(it), VStr("objects"), _digest_arg(it)]},
           pre=lambda it, self, entity, file: [
               ("objects-entity", z3.BoolVal(entity.concrete() == "objects")),
@@ -178,7 +178,7 @@ def _exists(it, self, entity, file):
     return VBool(T.present(fsget(it, obj_loc(str_of(it, file)))))
 
 
-@contract("FileHashStore._delete", use_at_calls=False,
+@contract("FileHashStore._delete", assumes_clean_cwd=True, use_at_calls=False,
           cases={"objects": lambda it: [make_self(it), VStr("objects"), _digest_arg(it)],
                  "tmp": lambda it: [make_self(it), VStr("tmp"),
                                     VPath(A_OBJ_TMP, (("str", z3.String("tmpname")),), pathobj=False)],
